@@ -17,14 +17,27 @@ fresh real lena objects and judged by
               data element and at the output) that lies under a static key is what the run-time model
               predicts from the UpdateContextFromStatic elements alone.
 
-Two families of trees (see describe()):
+Three families of trees (see describe()):
   A "placeholder": leaves over the full alphabet, an observer placeholder O among them, every structural
      form (nested Sequence / Split, Source roots and branches, tuple / bare / accumulator branches, empty
      nodes); O is replaced uniformly by each consumer kind, and for trees with two placeholders by every
      ordered pair of kinds;
   B "saturated": leaves are SetContext elements only; a consumer of one kind is inserted at *every*
      position of every element list (before, between and after the items), for every consumer kind, and
-     once with no consumers at all.
+     once with no consumers at all;
+  W "wide Split": one Split of exactly k branches (k = 3 quick, 3 and 4 thorough), every branch any member
+     of a pool of branch forms (empty, one key, another key, both keys, the first key with another value,
+     a nested key, a bare SetContext, a bare accumulator) - all pool**k branch lists, so that every
+     pattern of agreement between a first, middle and last branch occurs; the Split is the root or stands
+     after a prefix in a Sequence / Source; consumers are inserted as in family B.
+
+The consumers that work on values are observed over a small flow of values through the ONE element object
+(c13_model.M_PROBES, U_PROBES): values without a context, with a key that only the run-time context holds,
+with keys the static context holds too (top level and nested), and without a context again. Every
+MakeFilename has two fields: the file name (keys of the static context) and a directory name whose template
+takes one key from the static context and one that only a value brings. Each field must be its template
+resolved against the static context the element was given (the fold) together with the value's context,
+the latter taking precedence, and nothing but *output* may arrive in the value's context.
 """
 import copy
 import itertools
@@ -43,11 +56,20 @@ DESIGN_REF = "DESIGN.md section 5, C13"
 RULE = ("every tree of the bounded grammar is built once from fresh lena objects per consumer assignment; "
         "a tree is non-trivial when a consumer sees a non-empty static context and a SetContext exists "
         "that lies after it or in a sibling branch (something that could interfere), or when the tree "
-        "contains an unresolvable formatting key; trees are distinct by construction of the enumeration")
+        "contains an unresolvable formatting key; trees are distinct by construction of the enumeration "
+        "(family W: every list of k branches over the pool once per root form)")
 ASSUMPTIONS = [
     "static keys are Ka, Kb, Kn.a, Kn.b; values are constants (1, '', 3, None) or one-field templates '{{k}}_x'",
-    "observations: StoreContext.context, the run-time context after UpdateContextFromStatic, the name "
-    "MakeFilename produces, Write.output_directory, Cache._filename, node._get_context()",
+    "observations: StoreContext.context, the run-time contexts after UpdateContextFromStatic (flow of 3 "
+    "values: no context, a run-time-only key rt, no context), the file and directory names MakeFilename "
+    "produces and what else it leaves in the value's context (4 values through one element: no context, "
+    "rt, Ka and Kn.a, no context), Write.output_directory, Cache._filename, node._get_context()",
+    "MakeFilename: 'the run-time context has higher precedence' - whether a run-time sub-dictionary replaces "
+    "the static one or is merged into it is not stated: both accepted; file name templates have one or two "
+    "keys of the static context, the directory name template 'd_{{k}}-{{rt}}' one static key and one (rt) "
+    "that only the value holds",
+    "family W: one Split of 3 (thorough: also 4) branches from a pool of 8 branch forms, prefixes none / "
+    "SetContext(Ka) / SetContext(Kn.b); it stands alone, in a Sequence or in a Source",
     "whether the intersection exported by a Split keeps an empty sub-dictionary, and whether a branch "
     "without any static-context method takes part in the intersection, is not stated: both accepted",
     "what a consumer placed after an unresolvable key inside the same sequence holds is not stated: "
@@ -61,6 +83,11 @@ S_CORE = [["S", "Ka", 1], ["S", "Kb", ""], ["S", "Ka", "{{Kb}}_x"]]
 S_MORE = [["S", "Kn.a", 3], ["S", "Kb", None], ["S", "Kb", "{{Ka}}_x"], ["S", "Kn.b", "{{Kn.a}}_x"]]
 CONSUMER_VARIANTS = [["St"], ["U"], ["M", "Ka"], ["M", "Kb+Ka"], ["W", "Ka"], ["W", "Ka+Kb"], ["C", "Ka"],
                      ["C", "Kb+Ka"], ["M", "Kn.b+Kn.a"], ["W0", "Kb"]]
+
+# family W: branches a wide Split is made of, and what may stand before it
+W_POOL = [["t", []], ["t", [["S", "Ka", 1]]], ["t", [["S", "Kb", ""]]], ["t", [["S", "Ka", 1], ["S", "Kb", ""]]],
+          ["t", [["S", "Ka", 3]]], ["t", [["S", "Kn.a", 3]]], ["bare", ["S", "Ka", 1]], ["acc"]]
+W_PREFIXES = [[], [["S", "Ka", 1]], [["S", "Kn.b", 3]]]
 
 
 # ------------------------------------------------------------------------------------------------
@@ -125,8 +152,25 @@ class Grammar(object):
             yield ["split", brs]
 
 
+class WideGrammar(object):
+    """One Split of exactly k branches, every branch any member of the pool (all pool**k lists): as the
+    root, after each prefix in a Sequence, and after the second prefix in a Source."""
+
+    def __init__(self, pool, prefixes):
+        self.pool, self.prefixes = pool, prefixes
+
+    def roots(self, depth, k):
+        for brs in itertools.product(self.pool, repeat=k):
+            split = ["split", [copy.deepcopy(br) for br in brs]]
+            yield split
+            for pre in self.prefixes:
+                yield ["seq", copy.deepcopy(pre) + [copy.deepcopy(split)]]
+            yield ["src", copy.deepcopy(self.prefixes[1]) + [copy.deepcopy(split)]]
+
+
 def _families(tier):
-    """(label, family, grammar, depth, n) simplest first."""
+    """(label, family, grammar, depth, n) simplest first (family W: n = number of branches)."""
+    wide = WideGrammar(W_POOL, W_PREFIXES)
     fa_quick = Grammar(S_CORE + S_MORE[:2] + [["O"], ["D"]], br=("t", "bare", "acc", "src"), empties=True)
     fa_thor = Grammar(S_CORE + S_MORE + [["O"], ["D"]], br=("t", "bare", "acc", "src"), empties=True)
     fb_quick = Grammar(S_CORE + S_MORE[:2] + S_MORE[3:4])
@@ -140,6 +184,7 @@ def _families(tier):
             out.append(("B:d2:n%d" % n, "B", fb_quick if n < 3 else fb_small, 2, n))
         for n in (1, 2):
             out.append(("B:d3:n%d" % n, "B", fb_quick if n < 2 else fb_small, 3, n))
+        out.append(("W:d2:k3", "W", wide, 2, 3))
     else:
         for n in (0, 1, 2):
             out.append(("A:d2:n%d" % n, "A", fa_thor, 2, n))
@@ -147,6 +192,8 @@ def _families(tier):
             out.append(("B:d2:n%d" % n, "B", fb_thor, 2, n))
         for n in (1, 2):
             out.append(("B:d3:n%d" % n, "B", fb_thor, 3, n))
+        out.append(("W:d2:k3", "W", wide, 2, 3))
+        out.append(("W:d2:k4", "W", wide, 2, 4))
         out.append(("A:d2:n3", "A", fa_quick, 2, 3))
         out.append(("B:d2:n4", "B", fb_small, 2, 4))
         out.append(("B:d3:n3", "B", fb_small, 3, 3))
@@ -159,11 +206,16 @@ def describe(tier):
             "placeholder O, data element D, all node / branch forms incl. empty ones and Source branches, O "
             "replaced uniformly by each of the %d consumer variants and pairwise for two placeholders; "
             "family B: SetContext leaves only, a consumer of one variant (or none) inserted at every "
-            "position of every element list"
-            % (", ".join(f[0] for f in fams), len(fams[0][2].alpha) - 2, len(CONSUMER_VARIANTS)))
+            "position of every element list; family W (label W:depth:number of branches): one Split of "
+            "exactly k branches, all %d**k branch lists over a pool of branch forms, as root / after each of "
+            "%d prefixes in a Sequence / in a Source, consumers inserted as in family B; MakeFilename and "
+            "UpdateContextFromStatic are observed over %d / %d values with different run-time contexts"
+            % (", ".join(f[0] for f in fams), len(fams[0][2].alpha) - 2, len(CONSUMER_VARIANTS),
+               len(W_POOL), len(W_PREFIXES), len(M.M_PROBES), len(M.U_PROBES)))
 
 
-NSHARD = {"A:d2:n2": 8, "A:d2:n3": 128, "B:d2:n3": 16, "B:d2:n4": 128, "B:d3:n2": 8, "B:d3:n3": 128}
+NSHARD = {"A:d2:n2": 8, "A:d2:n3": 128, "B:d2:n3": 16, "B:d2:n4": 128, "B:d3:n2": 8, "B:d3:n3": 128,
+          "W:d2:k3": 4, "W:d2:k4": 32}
 
 
 def shards(tier):
@@ -217,7 +269,7 @@ def _saturate(tree, cons):
 
 def assignments(fam, tree):
     """The concrete trees judged for one enumerated tree."""
-    if fam == "B":
+    if fam in ("B", "W"):
         yield tree
         for cv in CONSUMER_VARIANTS:
             yield _saturate(tree, cv)
@@ -253,7 +305,11 @@ def _position(tree, path):
 
 
 def _norm(obs):
-    return M.prune_empty(obs) if isinstance(obs, dict) else obs
+    if isinstance(obs, dict):
+        return M.prune_empty(obs)
+    if isinstance(obs, (list, tuple)):
+        return [_norm(x) for x in obs]
+    return obs
 
 
 def _has_err(outs):
@@ -263,6 +319,22 @@ def _has_err(outs):
 class Judge(object):
     def __init__(self):
         self.memo = {}
+        self.allowed_memo = {}
+
+    def allowed(self, spec, seen):
+        """(no outcome in *seen* is an error, some context in it is non-empty, the observations the model
+        allows for the consumer *spec*, the same normalised) - a pure function of its arguments."""
+        key = (json.dumps(spec), tuple(sorted(seen)))
+        if key not in self.allowed_memo:
+            if len(self.allowed_memo) > 100000:
+                self.allowed_memo.clear()
+            ctxs = M.definite(seen)
+            if ctxs is None:
+                self.allowed_memo[key] = (False, False, None, None)
+            else:
+                allowed = [a for c in ctxs for a in M.expected_observations(spec, c)]
+                self.allowed_memo[key] = (True, any(c for c in ctxs), allowed, [_norm(a) for a in allowed])
+        return self.allowed_memo[key]
 
     def pruned_observation(self, tree, path, spec):
         pr = M.prune(tree, path)
@@ -312,13 +384,11 @@ class Judge(object):
                 except Exception as e:
                     obs = ("exc", type(e).__name__)
                 outcome.append(obs)
-                seen = fold.seen[path]
-                ctxs = M.definite(seen)
-                if ctxs is not None:
-                    allowed = [M.expected_observation(spec, c) for c in ctxs]
-                    if any(c for c in ctxs) and any(s[0] == "S" for _, s in M.outside_prefix(tree, path)):
+                definite, nonempty, allowed, allowed_norm = self.allowed(spec, fold.seen[path])
+                if definite:
+                    if nonempty and any(s[0] == "S" for _, s in M.outside_prefix(tree, path)):
                         nontrivial = True
-                    if obs[0] != "ok" or _norm(obs[1]) not in [_norm(a) for a in allowed]:
+                    if obs[0] != "ok" or _norm(obs[1]) not in allowed_norm:
                         bad("fold", {"path": list(path), "observed": obs}, allowed,
                             consumer=spec[0], position=pos)
                 twin = self.pruned_observation(tree, path, spec)
@@ -326,7 +396,7 @@ class Judge(object):
                     bad("causal", {"path": list(path), "in_tree": obs, "in_prefix_only": twin,
                                    "prefix": M.prune(tree, path)},
                         "the same observation in both", consumer=spec[0], position=pos,
-                        upstream_error=ctxs is None)
+                        upstream_error=not definite)
             # ---- nodes --------------------------------------------------------------------------
             for path, spec in M.nodes(tree):
                 if _has_err(fold.seen[path]):
@@ -408,11 +478,16 @@ def replay(case):
 LEVEL_TEXT = ("bounded exhaustive exploration of programs: every Sequence/Source/Split tree of the bounded "
               "grammar (depth <= 2 with <= 3 leaves in the quick tier, depth <= 3 / <= 4 leaves thorough; "
               "SetContext with constant and formatting values, StoreContext, UpdateContextFromStatic, "
-              "MakeFilename, Write, Cache, data elements at every position) is built from real lena objects "
+              "MakeFilename, Write, Cache, data elements at every position; in addition every Split of 3 "
+              "(thorough: 4) branches over a pool of 8 branch forms) is built from real lena objects "
               "and judged against a reference fold, against its own prefix-only reduction (causality), for "
-              "the LenaKeyError contract and for run-time leaks")
+              "the LenaKeyError contract and for run-time leaks; MakeFilename and UpdateContextFromStatic "
+              "are observed over a flow of values with and without run-time keys of their own")
 LEVEL_NOTE = ("holds for the enumerated grammar only; the reference fold is set-valued where the statement is "
               "silent (context-less branches in a Split, empty sub-dictionaries of an intersection); what a "
-              "consumer holds after an unresolvable key is judged by the differential law only")
+              "consumer holds after an unresolvable key is judged by the differential law only; for "
+              "MakeFilename both readings of 'the run-time context has higher precedence' (a run-time "
+              "sub-dictionary replaces / is merged into the static one) are accepted")
 TECHNIQUE = ("exhaustive enumeration of bounded program trees executed on the real code, judged by a "
-             "reference fold and by a prefix-reduction differential")
+             "reference fold (for MakeFilename: static fold joined with each value's run-time context) and by "
+             "a prefix-reduction differential")
